@@ -129,7 +129,7 @@ def compare(res, exp, m, emb, nv, is_int):
     return None
 
 
-def exec_state(df, st, part, prefix):
+def exec_state(df, st, part, prefix, tier="thorough"):
     cfg, act, obs = st["cfg"], st["act"], st["obs"]
     if act[0] != "pad":
         return 0
@@ -143,7 +143,12 @@ def exec_state(df, st, part, prefix):
     vals = list(cfg["vals"])
     cells3 = [[v, 2 * v + 1, -v] for v in vals]
     done = 0
-    for nv, ei, want_int in VARIANTS:
+    variants = VARIANTS
+    if tier == "quick":
+        # two of the four realisations per state, alternating deterministically over the states
+        k = (sum(n) + d + len(tag) + o["a"] + sum(1 for x in cfg["valid"] if x)) % 2
+        variants = [VARIANTS[k], VARIANTS[3 - k]]
+    for nv, ei, want_int in variants:
         is_int = want_int and o["mode"] != "linear_ramp"      # the model does not state the integer ramp (np.linspace)
         emb = EMBS[ei]
         f = make_field(df, m, emb, names, [c[:nv] for c in cells3], list(cfg["valid"]), is_int)
@@ -337,7 +342,7 @@ def run_stage(ctx, df, clause_prefix):
             for b in items:
                 st = tlaval.parse_state_text(b)
                 part.note("padopt_action_" + (ACTION_OF[st["act"][2]["mode"]] if st["act"][0] == "pad" else "Init"))
-                exec_state(df, st, part, clause_prefix)
+                exec_state(df, st, part, clause_prefix, ctx.tier)
             if items:
                 st = tlaval.parse_state_text(items[-1])
                 part.sample({"channel": "R", "stage": "PadOpt", "cfg": st["cfg"], "act": st["act"]})
@@ -353,7 +358,7 @@ def run_stage(ctx, df, clause_prefix):
             if fired == 0:
                 raise core._tlc.MachineryError(f"PadOpt: action {a} never fired")
             ctx.coverage_actions[f"{MODULE}.{a}"] = fired
-    nev = run_traces(ctx, df, 80 if ctx.tier == "quick" else 600, clause_prefix, 300 if ctx.tier == "quick" else 600)
+    nev = run_traces(ctx, df, 60 if ctx.tier == "quick" else 600, clause_prefix, 300 if ctx.tier == "quick" else 600)
     ctx.notes["padopt_states"] = r.distinct
     ctx.notes["padopt_impl_cases"] = cases
     ctx.assumptions += [
